@@ -81,8 +81,6 @@ def gen(c, chunkings):
                             if tuple(ch) not in seen:
                                 seen.add(tuple(ch))
                                 case("untouched:chunks=%s" % ",".join(map(str, ch)), touched=0, ch=list(ch))
-                                if unit != 5:       # ... and decrypted in place (output buffer = input buffer, as the command line tools do)
-                                    case("untouched:inplace:chunks=%s" % ",".join(map(str, ch)), touched=0, ch=list(ch), inplace=1)
                 # the complete single-bit-flip neighbourhood (quick: every bit of nonce, AAD, tag and of up to 24 body bytes)
                 for i in range(len(p["iv"]) * 8):
                     x = bytearray(p["iv"]); x[i // 8] ^= 1 << (i % 8)
@@ -113,6 +111,22 @@ def gen(c, chunkings):
     return out
 
 
+def cli_part(c, prop, which, tag):
+    """the command line tools as a user runs them (tools/clilib.py): files of sizes around the tools' 4096-byte buffer, both ways, judged by CryptoTrace.tla"""
+    import clilib
+    sizes = [0, 1, 15, 16, 17, 4080, 4095, 4096, 4097, 4111, 4112, 4113, 8191, 8192, 8193, 10000] + ([] if c.quick else [12287, 12288, 12289, 16383, 16384, 16385, 65535, 65536, 65537, 100000])
+    runs = clilib.sweep(c, prop, which, sizes, tag)
+    rej, states = vlib.validate("CryptoTrace", [evs for _, evs in runs], tag=tag + "cli", timeout=900)
+    c.cov["cli_runs"] = len(runs)
+    c.cov["traces_validated_against_impl"] = c.cov.get("traces_validated_against_impl", 0) + len(runs)
+    for i, j, ev in rej:
+        key, evs = runs[i]
+        what = ("a modified protected file was accepted by `gmssl %s -decrypt`" % ev.get("f", "")[4:]) if ev.get("e") == "CliTamper" else \
+               "`gmssl %s`: a %d-byte file did not come back from encrypt + decrypt, or the protected file differs from the reference construction (rc %s/%s, same=%s, refsame=%s, %d -> %d -> %d bytes)" % (
+                   ev.get("f", "")[4:], ev.get("n", -1), ev.get("rc1"), ev.get("rc2"), ev.get("same"), ev.get("refsame"), ev.get("n", -1), ev.get("midlen", -1), ev.get("outlen", -1))
+        c.violation(key + (":" + ev.get("what", "") if ev.get("e") == "CliTamper" else ""), what, {"events": evs})
+
+
 def body():
     c = Check("C05", "fault_enumeration")
     c.add_model(vlib.tlc_model("Aead"), "Aead MaxLen=3 TagLen=2: every single tamper x every chunking; AcceptOnlyUntouched, UntouchedAccepted, HoldBackExact")
@@ -138,6 +152,7 @@ def body():
         last = [e for e in evs if e["e"] in ("Finish", "Call")][-1]
         c.violation(key, "decryption returned %s for a %s tuple" % (last.get("rc"), "modified" if case.get("touched") else "genuine"),
                     {"case": case, "event_index": j, "events": [{kk: vv for kk, vv in e.items() if kk != "T"} for e in evs]})
+    cli_part(c, "C05", ["sm4_gcm", "sm4_cbc_sm3_hmac", "sm4_ctr_sm3_hmac"], "c05")
     for key, case, evs in execs[:2]:
         c.sample({"key": key, "rc": [e.get("rc") for e in evs if e["e"] in ("Finish", "Call")]})
     c.cov["exhaustive"] = not c.quick
